@@ -225,12 +225,28 @@ impl Monitor for Mon {
                 _ => {}
             }
         }
+        // being told (through a processed payload) about an identity that wins the address conflict
+        // supersedes the record whatever the two states are: the record may not stay behind it
+        if d.processed && rec.res.is_ok() {
+            let own_chain = identity_chain(rec);
+            for u in &d.updates {
+                // updates about an identity the instance itself holds / held during this call are
+                // self-updates (refutation, renewal), not membership records
+                if own_chain.contains(u.id()) || rec.after.record(u.id().addr).is_none() {
+                    continue;
+                }
+                let f = self.floor.entry(u.id().addr).or_insert(u.id().gen);
+                if u.id().gen > *f {
+                    *f = u.id().gen;
+                }
+            }
+        }
         for m in st {
             let f = self.floor.entry(m.id().addr).or_insert(m.id().gen);
             ensure!(
                 m.id().gen >= *f,
                 "C09:fell-back-to-superseded-identity",
-                "address {} is recorded as generation {} although generation {} was recorded earlier and never forgotten",
+                "address {} is recorded as generation {} although generation {} was recorded (or told through a processed payload) earlier and never forgotten",
                 m.id().addr,
                 m.id().gen,
                 *f
@@ -340,7 +356,7 @@ pub fn run(ctx: &Ctx, report: &mut Report) -> EvidenceMeta {
     ctx.run_part(&part(), report);
     EvidenceMeta {
         level: "exploration",
-        rule: "proptest random single-instance histories over 5 addresses x 5 generations (own address included, older and newer than the current identity), datagrams of every kind, update lists, issued timers in any order incl. duplicates, renewals and change_identity on the own address. After every call: addresses pairwise distinct, own address never active, #records <= #addresses told, record identity changes only to a winning identity with matching Rename, a record vanishes only through RemoveDown of exactly that Down identity, no fall-back to a superseded generation; datagrams from Down/superseded senders change nothing, reach no handler and are answered at most by one TurnUndead. Non-trivial: generations of one address arrive out of order through >= 2 channels (header, update, timer) or the own address appears with another generation; distinct = per-address channel profile."
+        rule: "proptest random single-instance histories over 5 addresses x 5 generations (own address included, older and newer than the current identity), datagrams of every kind, update lists, issued timers in any order incl. duplicates, renewals and change_identity on the own address. After every call: addresses pairwise distinct, own address never active, #records <= #addresses told, record identity changes only to a winning identity with matching Rename, a record vanishes only through RemoveDown of exactly that Down identity, no fall-back to (or staying behind) a generation that was recorded or told through a processed payload; datagrams from Down/superseded senders change nothing, reach no handler and are answered at most by one TurnUndead. Non-trivial: generations of one address arrive out of order through >= 2 channels (header, update, timer) or the own address appears with another generation; distinct = per-address channel profile."
             .into(),
         assumptions: vec![
             "change_identity is only used for a new identity on the instance's own address (documented use)".into(),
